@@ -10,9 +10,15 @@ class C17(Spec):
         "C17.check_implies_chained", "C17.group_binding", "C17.tamper_changes_signbytes", "C17.fee_rules",
         "C17.fee_nonzero_rejected", "C17.fee_too_low_rejected", "C17.created_group_checks",
         "C17.created_group_chained", "C17.signed_group_checkSign", "C17.group_checkSign_all", "C17.realFee_eq",
+        "C17.tampered_group_rejected_partial", "C17.resigned_member_accepted", "C17.signers_bound_full_false",
     )
-    partial = ()
-    refuted = ()
+    # hypotheses added w.r.t. the property text:
+    #  group_binding / tamper_changes_signbytes : 'up to signatures' and conclude on the signed bytes only
+    #  tampered_group_rejected_partial          : scheme is message-binding (C16.MsgBinding); tamper = change outside signatures
+    #  created_group_checks                     : signature field <= 300 bytes, no stale Next, <= 20 members, head fee fits
+    partial = ("C17.group_binding", "C17.tamper_changes_signbytes", "C17.tampered_group_rejected_partial",
+               "C17.created_group_checks")
+    refuted = ("C17.signers_bound_full_false", "C17.resigned_member_accepted")
     level_text = (
         "Lean theorems about the model of CreateTxGroup / Transactions.CheckWithFork / CheckSign (shared transaction "
         "model of C16): two groups that pass Check and share the head's header are equal member by member up to "
@@ -27,7 +33,11 @@ class C17(Spec):
         "(para/main mixes, expiry kinds, fee-step sizes) signed with real keys, with every structural and field "
         "mutant (also re-chained by RebuiltGroup) required to fail Check or CheckSign on the real code.")
     level_note = (
-        "Unforgeability of the signature "
+        "WHO signs a member is not bound by the group: every tamper theorem is 'up to signatures', and "
+        "resigned_member_accepted / signers_bound_full_false prove that a member re-signed, content unchanged, by any "
+        "other key passes Check and CheckSign again (replayed on the real code: known finding "
+        "C17|Check+CheckSign|resign-member-other-key-accepted). 'CheckSign fails on a tampered group' is proved under "
+        "the message-binding hypothesis on the scheme (tampered_group_rejected_partial). Unforgeability of the signature "
         "schemes is outside (as C16): the theorem shows the signed bytes change, the run shows the real drivers then "
         "reject. int64 fee arithmetic is modelled without wrap-around (fee rates <= 2^40 in the runs). Decoding of "
         "the group from Transaction.Header (GetTxGroup) is checked by round trip on the code, not modelled.")
